@@ -528,6 +528,13 @@ theorem DbSim.nameOf_eq {d d' : Db} (h : DbSim d d') (i : Nat) : nameOf d i = na
 theorem DbSim.resolve_eq {d d' : Db} (h : DbSim d d') (ord : List Nat) (x : Nat) :
     resolve d ord x = resolve d' ord x := by
   unfold resolve
+  have hm : ckNameIs d x = ckNameIs d' x := by
+    funext p; unfold ckNameIs; rw [h.nameOf_eq]
+  rw [hm, h.st.cps]
+
+theorem DbSim.resolveOld_eq {d d' : Db} (h : DbSim d d') (ord : List Nat) (x : Nat) :
+    resolveOld d ord x = resolveOld d' ord x := by
+  unfold resolveOld
   have hm : ckMatches d x = ckMatches d' x := by
     funext p; unfold ckMatches; rw [h.nameOf_eq]
   rw [hm, h.st.cps]
@@ -572,8 +579,8 @@ theorem sim_doCkDel (d d' : Db) (h : DbSim d d') (x : Nat) (ord : List Nat) :
     (doCkDel d x ord).2 = (doCkDel d' x ord).2 ∧
       DbSim (doCkDel d x ord).1 (doCkDel d' x ord).1 := by
   unfold doCkDel
-  rw [h.resolve_eq, h.st.cps]
-  cases resolve d' ord x with
+  rw [h.resolveOld_eq, h.st.cps]
+  cases resolveOld d' ord x with
   | none => exact ⟨rfl, h⟩
   | some i => exact ⟨rfl, h.upd (h.st.withCps _) h.eng⟩
 
